@@ -10,6 +10,7 @@ import (
 	"path/filepath"
 	"strings"
 	"testing"
+	"time"
 
 	"github.com/pilosa/pilosa/internal/vkit"
 	"pgregory.net/rapid"
@@ -163,9 +164,10 @@ func TestVerifC06_StoredFragment(t *testing.T) {
 	})
 }
 
-// DP15: when the primary translate store changed to "none" (this node became the coordinator) and later to another node,
-// handlePrimaryStoreEvent closed the same channel twice; the panic is raised in the store's own goroutine, so a sequence
-// of well-formed SetCoordinator / ClusterStatus messages stopped the server.
+// DP15: handlePrimaryStoreEvent closed the replication channel on every change of the primary translate store but
+// replaced it only when the new primary is a remote store: two changes in a row without one (this node became the
+// coordinator, then another node did) closed the same channel twice. The panic is raised in the store's own goroutine,
+// so a sequence of well-formed SetCoordinator / ClusterStatus messages stopped the server.
 func TestVerifWitness_DP15(t *testing.T) {
 	s := NewTranslateFile()
 	s.Path = filepath.Join(t.TempDir(), "keys")
@@ -173,13 +175,34 @@ func TestVerifWitness_DP15(t *testing.T) {
 		t.Fatal(err)
 	}
 	defer s.Close()
-	for _, id := range []string{"node-a", "", "node-b", "", ""} {
-		var ts TranslateStore
-		if id != "" {
-			ts = newNopTranslateStore(nil)
-		}
-		if pv := vc06Try(func() { s.handlePrimaryStoreEvent(primaryStoreEvent{id: id, ts: ts}) }); pv != nil {
+	for _, id := range []string{"node-a", "node-b", "", "node-c"} {
+		// no remote store object: nothing is replicated, only the bookkeeping of the change runs
+		if pv := vc06Try(func() { s.handlePrimaryStoreEvent(primaryStoreEvent{id: id, ts: nil}) }); pv != nil {
 			t.Fatalf("changing the primary translate store to %q panics: %v", id, pv)
 		}
+	}
+}
+
+// DP16 (open): handlePrimaryStoreEvent waits for the replication goroutine while holding the store's mutex, and that
+// goroutine needs the mutex (replicate -> size()): changing the primary while a replication is starting deadlocks,
+// and every later key translation blocks on the mutex.
+func TestVerifWitness_DP16(t *testing.T) {
+	s := NewTranslateFile()
+	s.Path = filepath.Join(t.TempDir(), "keys")
+	if err := s.Open(); err != nil {
+		t.Fatal(err)
+	}
+	done := make(chan struct{})
+	go func() {
+		defer close(done)
+		for _, id := range []string{"node-a", "node-b", "node-c", "node-d"} {
+			s.handlePrimaryStoreEvent(primaryStoreEvent{id: id, ts: newNopTranslateStore(nil)})
+		}
+	}()
+	select {
+	case <-done:
+		s.Close()
+	case <-time.After(30 * time.Second):
+		t.Fatalf("changing the primary translate store while a replication is running did not return within 30s (deadlock on TranslateFile.mu)")
 	}
 }
